@@ -3,6 +3,8 @@
   * the interpreter over the allocation policy `counterAlloc` IS `V1Interp` (`…U_counter`);
   * `slideWS_fresh`: what `_slide_with_subflows` / `_call_subflow` do to uids (every flow state they add carries a uid
     from the counter interval, the caller keeps its uid, a new `interrupted_by` names one of the added flow states);
+  * `slideWS_map … replay_map`, `computeNextSteps_inj`: the interpreter over `injAlloc g` (uids = an injective naming `g` of the counter)
+    is the image of `V1Interp` under the renaming `mapSt g`, function by function; its decisions are the same;
   * `computeNextState_uids` / `replay_uids`: `UidsOK` is an invariant of `compute_next_state` for ALL flow configs, events
     and states (advance loop, start loop, re-activation, marking, extension interrupt, resume fix-point).
 -/
@@ -522,5 +524,527 @@ theorem replay_uids (r : Bool) (cfgs : Cfgs) : ∀ (h : List Event) (st st' : St
       split
       · exact ⟨by simp, by simp⟩
       · exact hU1
+
+/-! ### the NAMES of the uids do not matter: renaming by an injective `g` commutes with every function of the interpreter -/
+
+def mapRes (g : Nat → Nat) : Except Err (State × FS) → Except Err (State × FS)
+  | .ok (ns, fs) => .ok (mapSt g ns, mapFS g fs)
+  | .error e => .error e
+
+theorem recordNextStep_map (g : Nat → Nat) (ns : State) (fs : FS) (cfg : FlowCfg) (m : Bool) :
+    recordNextStep (mapSt g ns) (mapFS g fs) cfg m = mapSt g (recordNextStep ns fs cfg m) := by
+  obtain ⟨ctx, flows, next, upd, ctr⟩ := ns
+  cases next <;> cases hp : pyIndex cfg.elems fs.head <;> simp [recordNextStep, mapSt, mapFS, mapNext, hp]
+  all_goals (split <;> simp [mapNext])
+
+theorem mapSt_snoc (g : Nat → Nat) (ns : State) (x : FS) :
+    ({ mapSt g ns with flows := (mapSt g ns).flows ++ [mapFS g x] } : State) = mapSt g { ns with flows := ns.flows ++ [x] } := by
+  simp [mapSt]
+
+/-- the common continuation of the two `do` cases, under renaming -/
+theorem call_map (g : Nat → Nat) (r : Bool) (f : Nat) (cfgs : Cfgs)
+    (ih : ∀ (ns : State) (fs : FS), slideWithSubflowsU (injAlloc g) r f cfgs (mapSt g ns) (mapFS g fs) = mapRes g (slideWithSubflows r f cfgs ns fs))
+    (ns : State) (fs : FS) (name : String) :
+    (match slideWithSubflowsU (injAlloc g) r f cfgs { mapSt g ns with ctr := (mapSt g ns).ctr + 1 } { uid := g (mapSt g ns).ctr, flowId := name, head := 0 } with
+      | .error e => .error e
+      | .ok (ns2, sub) =>
+        if sub.head < 0 then slideWithSubflowsU (injAlloc g) r f cfgs ns2 { mapFS g fs with head := (mapFS g fs).head + 1 }
+        else
+          match cfgs.find sub.flowId with
+          | Option.none => .error .key
+          | some scfg =>
+            if r && sub.status != .active then .ok ({ ns2 with flows := ns2.flows ++ [sub] }, { mapFS g fs with head := (mapFS g fs).head + 1, status := .interrupted, interruptedBy := some sub.uid })
+            else .ok (recordNextStep { ns2 with flows := ns2.flows ++ [sub] } sub scfg false, { mapFS g fs with head := (mapFS g fs).head + 1, status := .interrupted, interruptedBy := some sub.uid }))
+    = mapRes g (match slideWithSubflows r f cfgs { ns with ctr := ns.ctr + 1 } { uid := ns.ctr, flowId := name, head := 0 } with
+      | .error e => .error e
+      | .ok (ns2, sub) =>
+        if sub.head < 0 then slideWithSubflows r f cfgs ns2 { fs with head := fs.head + 1 }
+        else
+          match cfgs.find sub.flowId with
+          | Option.none => .error .key
+          | some scfg =>
+            if r && sub.status != .active then .ok ({ ns2 with flows := ns2.flows ++ [sub] }, { fs with head := fs.head + 1, status := .interrupted, interruptedBy := some sub.uid })
+            else .ok (recordNextStep { ns2 with flows := ns2.flows ++ [sub] } sub scfg false, { fs with head := fs.head + 1, status := .interrupted, interruptedBy := some sub.uid })) := by
+  have e1 : ({ mapSt g ns with ctr := (mapSt g ns).ctr + 1 } : State) = mapSt g { ns with ctr := ns.ctr + 1 } := rfl
+  have e2 : ({ uid := g (mapSt g ns).ctr, flowId := name, head := 0 } : FS) = mapFS g { uid := ns.ctr, flowId := name, head := 0 } := rfl
+  rw [e1, e2, ih]
+  cases h : slideWithSubflows r f cfgs { ns with ctr := ns.ctr + 1 } { uid := ns.ctr, flowId := name, head := 0 } with
+  | error e => rfl
+  | ok p =>
+    obtain ⟨ns2, sub⟩ := p
+    simp only [mapRes]
+    have hh : (mapFS g sub).head = sub.head := rfl
+    have hf : (mapFS g sub).flowId = sub.flowId := rfl
+    have hs : (mapFS g sub).status = sub.status := rfl
+    have hu : (mapFS g sub).uid = g sub.uid := rfl
+    rw [hh, hf, hs, hu]
+    by_cases hneg : sub.head < 0
+    · simp only [hneg, if_true]
+      exact ih ns2 { fs with head := fs.head + 1 }
+    · simp only [hneg, if_false]
+      cases cfgs.find sub.flowId with
+      | none => rfl
+      | some scfg =>
+        simp only []
+        by_cases hc : (r && sub.status != .active) = true
+        · simp only [hc, if_true, mapSt_snoc]; rfl
+        · simp only [hc, mapSt_snoc, recordNextStep_map]; rfl
+
+theorem slideWS_map (g : Nat → Nat) (r : Bool) : ∀ (f : Nat) (cfgs : Cfgs) (ns : State) (fs : FS),
+    slideWithSubflowsU (injAlloc g) r f cfgs (mapSt g ns) (mapFS g fs) = mapRes g (slideWithSubflows r f cfgs ns fs) := by
+  intro f
+  induction f with
+  | zero => intro cfgs ns fs; rfl
+  | succ f ih =>
+    intro cfgs ns fs
+    simp only [slideWithSubflowsU, slideWithSubflows]
+    have hfid : (mapFS g fs).flowId = fs.flowId := rfl
+    have hhead : (mapFS g fs).head = fs.head := rfl
+    have hctx : (mapSt g ns).ctx = ns.ctx := rfl
+    have hupd : (mapSt g ns).upd = ns.upd := rfl
+    rw [hfid, hhead, hctx, hupd]
+    cases cfgs.find fs.flowId with
+    | none => rfl
+    | some cfg =>
+      simp only []
+      cases slide SLIDE_FUEL cfg.elems ⟨ns.ctx, ns.upd⟩ fs.head (initPrev cfg.elems fs.head) with
+      | oof => rfl
+      | err => rfl
+      | fin st h => rfl
+      | «at» st h =>
+        simp only []
+        cases hel : cfg.elems[h.toNat]? with
+        | none => simp only [mapRes]; rw [← recordNextStep_map]; rfl
+        | some el =>
+          cases el with
+          | flow name =>
+            exact call_map g r f cfgs (ih cfgs) { ns with ctx := st.ctx, upd := st.upd } { fs with head := h } name
+          | flowE e =>
+            simp only []
+            have : (mapSt g { ns with ctx := st.ctx, upd := st.upd }).ctx = st.ctx := rfl
+            cases hev : eval st.ctx e with
+            | none => simp [mapRes]
+            | some v =>
+              cases v with
+              | str name =>
+                simp only [mapSt]
+                exact call_map g r f cfgs (ih cfgs) { ns with ctx := st.ctx, upd := st.upd } { fs with head := h } name
+              | _ => simp [mapRes]
+          | _ => simp only [mapRes]; rw [← recordNextStep_map]; rfl
+
+def mapResB (g : Nat → Nat) : Except Err (State × Bool) → Except Err (State × Bool)
+  | .ok (ns, b) => .ok (mapSt g ns, b)
+  | .error e => .error e
+
+def mapResS (g : Nat → Nat) : Except Err State → Except Err State
+  | .ok ns => .ok (mapSt g ns)
+  | .error e => .error e
+
+theorem advanceOne_map (g : Nat → Nat) (r : Bool) (cfgs : Cfgs) (ev : Event) (ns : State) (ext : Bool) (fs : FS) :
+    advanceOneU (injAlloc g) r cfgs ev (mapSt g ns) ext (mapFS g fs) = mapResB g (advanceOne r cfgs ev ns ext fs) := by
+  simp only [advanceOneU, advanceOne]
+  have hfid : (mapFS g fs).flowId = fs.flowId := rfl
+  have hhead : (mapFS g fs).head = fs.head := rfl
+  have hst : (mapFS g fs).status = fs.status := rfl
+  rw [hfid, hhead, hst]
+  cases cfgs.find fs.flowId with
+  | none => rfl
+  | some cfg =>
+    simp only []
+    split
+    · rfl
+    · split
+      · simp only [mapResB, mapSt_snoc]
+      · cases pyIndex cfg.elems fs.head with
+        | none => rfl
+        | some headEl =>
+          simp only []
+          split
+          · simp only [mapResB, mapSt_snoc, recordNextStep_map]
+          · split
+            · have := slideWS_map g r SUB_FUEL cfgs ns { fs with head := fs.head + 1 }
+              have e : ({ uid := (mapFS g fs).uid, flowId := fs.flowId, head := fs.head + 1, status := fs.status, interruptedBy := (mapFS g fs).interruptedBy } : FS) = mapFS g { fs with head := fs.head + 1 } := rfl
+              rw [e, this]
+              cases slideWithSubflows r SUB_FUEL cfgs ns { fs with head := fs.head + 1 } with
+              | error e => rfl
+              | ok p =>
+                obtain ⟨ns2, fs2⟩ := p
+                simp only [mapRes]
+                have hh : (mapFS g fs2).head = fs2.head := rfl
+                rw [hh]
+                split
+                · simp only [mapResB]; rw [← mapSt_snoc]; rfl
+                · simp only [mapResB, mapSt_snoc]
+            · split
+              · simp only [mapResB]; rw [← mapSt_snoc]; rfl
+              · simp only [mapResB]; rw [← mapSt_snoc]; rfl
+
+theorem advanceAll_map (g : Nat → Nat) (r : Bool) (cfgs : Cfgs) (ev : Event) : ∀ (l : List FS) (ns : State) (ext : Bool),
+    advanceAllU (injAlloc g) r cfgs ev (l.map (mapFS g)) (mapSt g ns) ext = mapResB g (advanceAll r cfgs ev l ns ext) := by
+  intro l
+  induction l with
+  | nil => intro ns ext; rfl
+  | cons a l ih =>
+    intro ns ext
+    simp only [List.map_cons, advanceAllU, advanceAll, advanceOne_map]
+    cases advanceOne r cfgs ev ns ext a with
+    | error e => rfl
+    | ok p => obtain ⟨ns1, e1⟩ := p; simp only [mapResB]; exact ih ns1 e1
+
+theorem mapSt_setAt (g : Nat → Nat) (ns : State) (i : Nat) (x : FS) :
+    ({ mapSt g ns with flows := setAt (mapSt g ns).flows i (mapFS g x) } : State) = mapSt g { ns with flows := setAt ns.flows i x } := by
+  simp [mapSt, setAt, List.map_set]
+
+theorem startOne_map (g : Nat → Nat) (r : Bool) (cfgs : Cfgs) (ev : Event) (ns : State) (cfg : FlowCfg) :
+    startOneU (injAlloc g) r cfgs ev (mapSt g ns) cfg = mapResS g (startOne r cfgs ev ns cfg) := by
+  simp only [startOneU, startOne]
+  have hfl : ((mapSt g ns).flows.map (·.flowId)) = ns.flows.map (·.flowId) := by
+    simp [mapSt, mapFS, Function.comp_def]
+  have hctx : (mapSt g ns).ctx = ns.ctx := rfl
+  have hupd : (mapSt g ns).upd = ns.upd := rfl
+  have hlen : (mapSt g ns).flows.length = ns.flows.length := by simp [mapSt]
+  have hctr : (mapSt g ns).ctr = ns.ctr := rfl
+  rw [hfl, hctx, hupd, hlen, hctr]
+  split
+  · rfl
+  · split
+    · rfl
+    · cases hsl : slide SLIDE_FUEL cfg.elems ⟨ns.ctx, ns.upd⟩ 0 (initPrev cfg.elems 0) with
+      | oof => rfl
+      | err => rfl
+      | fin st h =>
+        simp only []
+        cases pyIndex cfg.elems h with
+        | none => rfl
+        | some el =>
+          simp only []
+          split
+          · have key := slideWS_map g r SUB_FUEL cfgs { ns with ctx := st.ctx, upd := st.upd, ctr := ns.ctr + 1, flows := ns.flows ++ [{ uid := ns.ctr, flowId := cfg.id, head := h + 1 }] } { uid := ns.ctr, flowId := cfg.id, head := h + 1 }
+            have e1 : mapSt g { ns with ctx := st.ctx, upd := st.upd, ctr := ns.ctr + 1, flows := ns.flows ++ [{ uid := ns.ctr, flowId := cfg.id, head := h + 1 }] }
+                = { ctx := st.ctx, flows := (mapSt g ns).flows ++ [{ uid := (injAlloc g).flow ns.ctr, flowId := cfg.id, head := h + 1 }], next := (mapSt g ns).next, upd := st.upd, ctr := ns.ctr + 1 } := by
+              simp [mapSt, mapFS, injAlloc]
+            have e2 : mapFS g { uid := ns.ctr, flowId := cfg.id, head := h + 1 } = { uid := (injAlloc g).flow ns.ctr, flowId := cfg.id, head := h + 1 } := rfl
+            rw [e1, e2] at key
+            rw [key]
+            cases slideWithSubflows r SUB_FUEL cfgs { ns with ctx := st.ctx, upd := st.upd, ctr := ns.ctr + 1, flows := ns.flows ++ [{ uid := ns.ctr, flowId := cfg.id, head := h + 1 }] } { uid := ns.ctr, flowId := cfg.id, head := h + 1 } with
+            | error e => rfl
+            | ok p =>
+              obtain ⟨ns2, fs2⟩ := p
+              simp only [mapRes, mapResS]
+              rw [← mapSt_setAt]
+              congr 2
+              have hh : (mapFS g fs2).head = fs2.head := rfl
+              rw [hh]
+              split <;> rfl
+          · rfl
+      | «at» st h =>
+        simp only []
+        cases pyIndex cfg.elems h with
+        | none => rfl
+        | some el =>
+          simp only []
+          split
+          · have key := slideWS_map g r SUB_FUEL cfgs { ns with ctx := st.ctx, upd := st.upd, ctr := ns.ctr + 1, flows := ns.flows ++ [{ uid := ns.ctr, flowId := cfg.id, head := h + 1 }] } { uid := ns.ctr, flowId := cfg.id, head := h + 1 }
+            have e1 : mapSt g { ns with ctx := st.ctx, upd := st.upd, ctr := ns.ctr + 1, flows := ns.flows ++ [{ uid := ns.ctr, flowId := cfg.id, head := h + 1 }] }
+                = { ctx := st.ctx, flows := (mapSt g ns).flows ++ [{ uid := (injAlloc g).flow ns.ctr, flowId := cfg.id, head := h + 1 }], next := (mapSt g ns).next, upd := st.upd, ctr := ns.ctr + 1 } := by
+              simp [mapSt, mapFS, injAlloc]
+            have e2 : mapFS g { uid := ns.ctr, flowId := cfg.id, head := h + 1 } = { uid := (injAlloc g).flow ns.ctr, flowId := cfg.id, head := h + 1 } := rfl
+            rw [e1, e2] at key
+            rw [key]
+            cases slideWithSubflows r SUB_FUEL cfgs { ns with ctx := st.ctx, upd := st.upd, ctr := ns.ctr + 1, flows := ns.flows ++ [{ uid := ns.ctr, flowId := cfg.id, head := h + 1 }] } { uid := ns.ctr, flowId := cfg.id, head := h + 1 } with
+            | error e => rfl
+            | ok p =>
+              obtain ⟨ns2, fs2⟩ := p
+              simp only [mapRes, mapResS]
+              rw [← mapSt_setAt]
+              congr 2
+              have hh : (mapFS g fs2).head = fs2.head := rfl
+              rw [hh]
+              split <;> rfl
+          · rfl
+
+theorem startNew_map (g : Nat → Nat) (r : Bool) (cfgs : Cfgs) (ev : Event) : ∀ (l : List FlowCfg) (ns : State),
+    startNewU (injAlloc g) r cfgs ev l (mapSt g ns) = mapResS g (startNew r cfgs ev l ns) := by
+  intro l
+  induction l with
+  | nil => intro ns; rfl
+  | cons c l ih =>
+    intro ns
+    simp only [startNewU, startNew, startOne_map]
+    cases startOne r cfgs ev ns c with
+    | error e => rfl
+    | ok ns1 => simp only [mapResS]; exact ih ns1
+
+theorem reactivate_map (g : Nat → Nat) (cfgs : Cfgs) : ∀ (l acc : List FS) (ns : State),
+    reactivateAborted cfgs (l.map (mapFS g)) (acc.map (mapFS g)) (mapSt g ns) = mapSt g (reactivateAborted cfgs l acc ns) := by
+  intro l
+  induction l with
+  | nil => intro acc ns; simp [reactivateAborted, mapSt]
+  | cons a l ih =>
+    intro acc ns
+    simp only [List.map_cons, reactivateAborted]
+    have hs : (mapFS g a).status = a.status := rfl
+    have hf : (mapFS g a).flowId = a.flowId := rfl
+    rw [hs]
+    split
+    · have e : ({ mapFS g a with status := Status.active } : FS) = mapFS g { a with status := .active } := rfl
+      rw [e]
+      have e2 : acc.map (mapFS g) ++ [mapFS g { a with status := .active }] = (acc ++ [{ a with status := .active }]).map (mapFS g) := by simp
+      rw [e2]
+      rw [hf]
+      cases cfgs.find a.flowId with
+      | none => exact ih _ _
+      | some cfg => simp only []; rw [recordNextStep_map]; exact ih _ _
+    · have e2 : acc.map (mapFS g) ++ [mapFS g a] = (acc ++ [a]).map (mapFS g) := by simp
+      rw [e2]
+      exact ih _ _
+
+theorem markInterrupted_map (g : Nat → Nat) (ns : State) : markInterrupted (mapSt g ns) = mapSt g (markInterrupted ns) := by
+  simp only [markInterrupted, mapSt, List.map_map]
+  congr 1
+  apply List.map_congr_left
+  intro x _
+  simp only [Function.comp]
+  have hs : (mapFS g x).status = x.status := rfl
+  have hb : (mapFS g x).interruptedBy.isNone = x.interruptedBy.isNone := by simp [mapFS]
+  rw [hs, hb]
+  split
+  · cases ns.next <;> simp [mapFS, mapNext]
+  · rfl
+
+theorem find_map (g : Nat → Nat) (hg : Function.Injective g) (l : List FS) (u : Nat) :
+    (l.map (mapFS g)).find? (fun x => x.uid == g u) = (l.find? (fun x => x.uid == u)).map (mapFS g) := by
+  induction l with
+  | nil => rfl
+  | cons a l ih =>
+    have : ((mapFS g a).uid == g u) = (a.uid == u) := by
+      show (g a.uid == g u) = (a.uid == u)
+      by_cases h : a.uid = u
+      · rw [h]; simp
+      · have h2 : g a.uid ≠ g u := fun e => h (hg e)
+        rw [beq_eq_false_iff_ne.2 h, beq_eq_false_iff_ne.2 h2]
+    simp only [List.map_cons, List.find?_cons, this]
+    cases a.uid == u <;> simp [ih]
+
+theorem filter_map (g : Nat → Nat) (hg : Function.Injective g) (l : List FS) (u : Nat) :
+    (l.map (mapFS g)).filter (fun x => x.uid == g u) = (l.filter (fun x => x.uid == u)).map (mapFS g) := by
+  induction l with
+  | nil => rfl
+  | cons a l ih =>
+    have : ((mapFS g a).uid == g u) = (a.uid == u) := by
+      show (g a.uid == g u) = (a.uid == u)
+      by_cases h : a.uid = u
+      · rw [h]; simp
+      · have h2 : g a.uid ≠ g u := fun e => h (hg e)
+        rw [beq_eq_false_iff_ne.2 h, beq_eq_false_iff_ne.2 h2]
+    simp only [List.map_cons, List.filter_cons, this]
+    cases a.uid == u <;> simp [ih]
+
+theorem extensionInterrupt_map (g : Nat → Nat) (hg : Function.Injective g) (cfgs : Cfgs) (ns : State) :
+    extensionInterrupt cfgs (mapSt g ns) = mapSt g (extensionInterrupt cfgs ns) := by
+  simp only [extensionInterrupt]
+  cases hn : ns.next with
+  | none => simp [mapSt, hn]
+  | some n =>
+    have hn' : (mapSt g ns).next = some (mapNext g n) := by simp [mapSt, hn]
+    simp only [hn']
+    have hf : (mapSt g ns).flows = ns.flows.map (mapFS g) := rfl
+    have hu : (mapNext g n).uid = g n.uid := rfl
+    rw [hf, hu, filter_map g hg, List.getLast?_map]
+    cases (ns.flows.filter (fun fs => fs.uid == n.uid)).getLast? with
+    | none => rfl
+    | some d =>
+      simp only [Option.map_some]
+      have hd : (mapFS g d).flowId = d.flowId := rfl
+      have hh : (mapFS g d).head = d.head := rfl
+      rw [hd, hh]
+      cases cfgs.find d.flowId with
+      | none => rfl
+      | some dcfg =>
+        simp only []
+        split
+        · simp only [mapSt, List.map_map, hn]
+          congr 1
+          apply List.map_congr_left
+          intro x _
+          simp only [Function.comp]
+          have hs : (mapFS g x).status = x.status := rfl
+          have hfx : (mapFS g x).flowId = x.flowId := rfl
+          rw [hs, hfx]
+          split <;> rfl
+        · rfl
+
+theorem resumePass_map (g : Nat → Nat) (hg : Function.Injective g) (r : Bool) : ∀ (f : Nat) (cfgs : Cfgs) (ns : State) (i : Nat) (ch : Bool),
+    resumePassU (injAlloc g) r f cfgs (mapSt g ns) i ch = mapResB g (resumePass r f cfgs ns i ch) := by
+  intro f
+  induction f with
+  | zero => intro cfgs ns i ch; rfl
+  | succ f ih =>
+    intro cfgs ns i ch
+    have hget : (mapSt g ns).flows[i]? = (ns.flows[i]?).map (mapFS g) := by simp [mapSt]
+    cases hi : ns.flows[i]? with
+    | none =>
+      simp only [resumePassU, resumePass, hget, hi, Option.map_none]; rfl
+    | some fs =>
+      -- the branch that resumes `fs`
+      have slideBranch : (match slideWithSubflowsU (injAlloc g) r SUB_FUEL cfgs (mapSt g ns) { mapFS g fs with status := .active, interruptedBy := Option.none } with
+            | .error e => .error e
+            | .ok (ns2, fs2) =>
+              resumePassU (injAlloc g) r f cfgs { ns2 with flows := setAt ns2.flows i (if fs2.head < 0 then { fs2 with status := .completed } else fs2) } (i + 1) true)
+          = mapResB g (match slideWithSubflows r SUB_FUEL cfgs ns { fs with status := .active, interruptedBy := Option.none } with
+            | .error e => .error e
+            | .ok (ns2, fs2) =>
+              resumePass r f cfgs { ns2 with flows := setAt ns2.flows i (if fs2.head < 0 then { fs2 with status := .completed } else fs2) } (i + 1) true) := by
+        have e : ({ mapFS g fs with status := Status.active, interruptedBy := Option.none } : FS) = mapFS g { fs with status := .active, interruptedBy := Option.none } := rfl
+        rw [e, slideWS_map]
+        cases slideWithSubflows r SUB_FUEL cfgs ns { fs with status := .active, interruptedBy := Option.none } with
+        | error e => rfl
+        | ok p =>
+          obtain ⟨ns2, fs2⟩ := p
+          simp only [mapRes]
+          show resumePassU (injAlloc g) r f cfgs { mapSt g ns2 with flows := setAt (mapSt g ns2).flows i (if fs2.head < 0 then mapFS g { fs2 with status := .completed } else mapFS g fs2) } (i + 1) true = _
+          have e3 : (if fs2.head < 0 then mapFS g { fs2 with status := .completed } else mapFS g fs2) =
+              mapFS g (if fs2.head < 0 then { fs2 with status := .completed } else fs2) := by split <;> rfl
+          rw [e3, mapSt_setAt]
+          exact ih _ _ _ _
+      have abortBranch : resumePassU (injAlloc g) r f cfgs { mapSt g ns with flows := setAt (mapSt g ns).flows i { mapFS g fs with status := .aborted, interruptedBy := Option.none } } (i + 1) true
+          = mapResB g (resumePass r f cfgs { ns with flows := setAt ns.flows i { fs with status := .aborted, interruptedBy := Option.none } } (i + 1) true) := by
+        have e : ({ mapFS g fs with status := Status.aborted, interruptedBy := Option.none } : FS) = mapFS g { fs with status := .aborted, interruptedBy := Option.none } := rfl
+        rw [e, mapSt_setAt]
+        exact ih _ _ _ _
+      simp only [resumePassU, resumePass, hget, hi, Option.map_some]
+      have hs : (mapFS g fs).status = fs.status := rfl
+      have hby : (mapFS g fs).interruptedBy = fs.interruptedBy.map g := rfl
+      rw [hs, hby]
+      by_cases hint : (fs.status == Status.interrupted) = true
+      · simp only [hint, if_true]
+        cases hb : fs.interruptedBy with
+        | none =>
+          simp only [Option.map_none, Option.isNone_none, Bool.true_or, if_true]
+          exact slideBranch
+        | some u =>
+          simp only [Option.map_some, Option.isNone_some, Bool.false_or, Bool.not_false, Bool.true_and]
+          have hfm : (mapSt g ns).flows.find? (fun x => x.uid == g u) = (ns.flows.find? (fun x => x.uid == u)).map (mapFS g) := find_map g hg ns.flows u
+          rw [hfm]
+          cases ns.flows.find? (fun x => x.uid == u) with
+          | none =>
+            simp only [Option.map_none]
+            exact ih _ _ _ _
+          | some t =>
+            simp only [Option.map_some]
+            by_cases hc : (t.status == Status.completed) = true
+            · have hc' : ((mapFS g t).status == Status.completed) = true := hc
+              simp only [hc, hc', if_true]; exact slideBranch
+            · have hc' : ¬ ((mapFS g t).status == Status.completed) = true := hc
+              simp only [hc, hc']
+              by_cases ha : (t.status == Status.aborted) = true
+              · have ha' : ((mapFS g t).status == Status.aborted) = true := ha
+                simp only [ha, ha', if_true]; exact abortBranch
+              · have ha' : ¬ ((mapFS g t).status == Status.aborted) = true := ha
+                simp only [ha, ha']; exact ih _ _ _ _
+      · simp only [hint]
+        exact ih _ _ _ _
+
+theorem resumeLoop_map (g : Nat → Nat) (hg : Function.Injective g) (r : Bool) : ∀ (f : Nat) (cfgs : Cfgs) (ns : State),
+    resumeLoopU (injAlloc g) r f cfgs (mapSt g ns) = mapResS g (resumeLoop r f cfgs ns) := by
+  intro f
+  induction f with
+  | zero => intro cfgs ns; rfl
+  | succ f ih =>
+    intro cfgs ns
+    simp only [resumeLoopU, resumeLoop, resumePass_map g hg]
+    cases resumePass r 1000 cfgs ns 0 false with
+    | error e => rfl
+    | ok p =>
+      obtain ⟨ns1, c⟩ := p
+      simp only [mapResB]
+      split
+      · exact ih _ _
+      · rfl
+
+theorem computeNextState_map (g : Nat → Nat) (hg : Function.Injective g) (r : Bool) (cfgs : Cfgs) (st : State) (ev : Event) :
+    computeNextStateU (injAlloc g) r cfgs (mapSt g st) ev = mapResS g (computeNextState r cfgs st ev) := by
+  have main : ∀ (ns0 : State), ns0.flows = [] → ns0.next = Option.none →
+      (match advanceAllU (injAlloc g) r cfgs ev (mapSt g st).flows ns0 false with
+        | .error e => .error e
+        | .ok (ns, ext) =>
+          match startNewU (injAlloc g) r cfgs ev cfgs ns with
+          | .error e => .error e
+          | .ok ns =>
+            resumeLoopU (injAlloc g) r 100 cfgs (extensionInterrupt cfgs (markInterrupted (if ext then reactivateAborted cfgs ns.flows [] ns else ns))))
+      = mapResS g (match advanceAll r cfgs ev st.flows ns0 false with
+        | .error e => .error e
+        | .ok (ns, ext) =>
+          match startNew r cfgs ev cfgs ns with
+          | .error e => .error e
+          | .ok ns =>
+            resumeLoop r 100 cfgs (extensionInterrupt cfgs (markInterrupted (if ext then reactivateAborted cfgs ns.flows [] ns else ns)))) := by
+    intro ns0 hf hn
+    have e0 : ns0 = mapSt g ns0 := by
+      obtain ⟨c, fl, nx, u, k⟩ := ns0
+      simp only at hf hn
+      subst hf; subst hn; rfl
+    have e1 : (mapSt g st).flows = st.flows.map (mapFS g) := rfl
+    rw [e1]
+    conv => lhs; rw [e0]
+    rw [advanceAll_map]
+    cases advanceAll r cfgs ev st.flows ns0 false with
+    | error e => rfl
+    | ok p =>
+      obtain ⟨ns1, ext⟩ := p
+      simp only [mapResB]
+      rw [startNew_map]
+      cases startNew r cfgs ev cfgs ns1 with
+      | error e => rfl
+      | ok ns2 =>
+        simp only [mapResS]
+        have e2 : (if ext = true then reactivateAborted cfgs (mapSt g ns2).flows [] (mapSt g ns2) else mapSt g ns2) =
+            mapSt g (if ext = true then reactivateAborted cfgs ns2.flows [] ns2 else ns2) := by
+          split
+          · exact reactivate_map g cfgs ns2.flows [] ns2
+          · rfl
+        rw [e2, markInterrupted_map, extensionInterrupt_map g hg, resumeLoop_map g hg]
+        rfl
+  cases ev with
+  | startAction => rfl
+  | contextUpdate d => simp only [computeNextStateU, computeNextState, mapResS]; rfl
+  | _ => simp only [computeNextStateU, computeNextState]; exact main _ rfl rfl
+
+theorem replay_map (g : Nat → Nat) (hg : Function.Injective g) (r : Bool) (cfgs : Cfgs) : ∀ (h : List Event) (st : State),
+    replayU (injAlloc g) r cfgs h (mapSt g st) = mapResS g (replay r cfgs h st) := by
+  intro h
+  induction h with
+  | nil => intro st; rfl
+  | cons ev h ih =>
+    intro st
+    simp only [replayU, replay, computeNextState_map g hg]
+    cases computeNextState r cfgs st ev with
+    | error e => rfl
+    | ok st1 =>
+      simp only [mapResS]
+      have e : (if (ev == Event.botIntent "stop") = true then { mapSt g st1 with flows := [] } else mapSt g st1) =
+          mapSt g (if (ev == Event.botIntent "stop") = true then { st1 with flows := [] } else st1) := by
+        split <;> rfl
+      rw [e]
+      exact ih _
+
+theorem decisionsOf_map (g : Nat → Nat) (st : State) : decisionsOf (mapSt g st) = decisionsOf st := by
+  simp only [decisionsOf, mapSt]
+  cases st.next <;> rfl
+
+/-- the decisions do not depend on the NAMES of the uids: every injective naming of the allocation counter decides alike -/
+theorem computeNextSteps_inj (g : Nat → Nat) (hg : Function.Injective g) (r : Bool) (cfgs : Cfgs) (h : List Event) (config : Ctx) :
+    computeNextStepsU (injAlloc g) r cfgs h config = computeNextSteps r cfgs h config := by
+  simp only [computeNextStepsU, computeNextSteps]
+  cases applyHide h [] with
+  | none => rfl
+  | some actual =>
+    simp only []
+    rw [show replayU (injAlloc g) r cfgs actual { ctx := config } = mapResS g (replay r cfgs actual { ctx := config }) from
+      replay_map g hg r cfgs actual { ctx := config }]
+    cases replay r cfgs actual { ctx := config } with
+    | error e => cases e <;> rfl
+    | ok st => simp only [mapResS, decisionsOf_map]
+
 
 end NemoVerif.V1UidL
